@@ -234,3 +234,21 @@ fn kx_chain_remaining_saturates_for_every_usize() {
     assert!(Buf::remaining(&t) == core::cmp::min(m, a.saturating_add(b)) && t.limit() == m);
     kani::cover!(a.checked_add(b).is_none(), "sum exceeds usize");
 }
+
+// @ob props=C09 tier=quick kind=Kbounded bound="3-byte buffer, nth(k) with k <= 4" fns=IntoIter::next,Iterator::nth(IntoIter),Iterator::count(IntoIter)
+#[kani::proof]
+#[kani::unwind(7)]
+fn kx_into_iter_provided_methods_follow_next() {
+    // the provided Iterator methods behave as iterated `next()`: an override (seed C09-9 added an
+    // `nth` that does not exhaust the buffer) must agree with the cursor laws too
+    let d: [u8; 3] = kani::any();
+    let k: usize = kani::any();
+    kani::assume(k <= 4);
+    let mut it = crate::buf::IntoIter::new(&d[..]);
+    let r = it.nth(k);
+    assert!(r == if k < 3 { Some(d[k]) } else { None });
+    let left = if k < 3 { 3 - (k + 1) } else { 0 };
+    assert!(it.get_ref().len() == left && it.size_hint() == (left, Some(left)));
+    assert!(it.count() == left);
+    kani::cover!(k == 3);
+}
